@@ -1895,3 +1895,71 @@ def classmethod_constructors(tree):
     if done:
         _link(tree)
     return done
+
+
+def unwrap_memo_functions(tree):
+    """a helper that only remembers what Category.parse gave for a text --
+
+        parsed = {}
+        def parse(text):
+            [if not isinstance(text, str): return Category.parse(text)]
+            if text not in parsed:
+                parsed[text] = Category.parse(text)
+            return parsed[text]
+
+    -- is Category.parse: its calls read as calls of the parser, the helper and its table go away.  Only for the parsers
+    listed in PURE_VALUE_PARSERS (frozen values that depend on the text alone) and only when the table has no other use."""
+    done = []
+    scopes = [tree] + [n for n in ast.walk(tree) if isinstance(n, FUNCS)]
+    for scope in scopes:
+        body = scope.body
+        for f in [s for s in body if isinstance(s, ast.FunctionDef)]:
+            if len(f.args.args) != 1 or f.args.vararg or f.args.kwarg or f.args.kwonlyargs or f.decorator_list:
+                continue
+            p = f.args.args[0].arg
+            stmts = [x for x in f.body if not _is_doc(x)]
+            G = M = None
+            ok = bool(stmts)
+
+            def is_parse(c):
+                return isinstance(c, ast.Call) and ast.unparse(c.func) in PURE_VALUE_PARSERS and len(c.args) == 1 and not c.keywords \
+                    and isinstance(c.args[0], ast.Name) and c.args[0].id == p
+            for x in stmts:
+                if isinstance(x, ast.Return) and is_parse(x.value):
+                    G = ast.unparse(x.value.func)
+                elif isinstance(x, ast.Return) and isinstance(x.value, ast.Subscript) and isinstance(x.value.value, ast.Name) \
+                        and isinstance(x.value.slice, ast.Name) and x.value.slice.id == p:
+                    M = x.value.value.id if M in (None, x.value.value.id) else False
+                elif isinstance(x, ast.If) and not x.orelse and len(x.body) == 1 and isinstance(x.body[0], ast.Return) and is_parse(x.body[0].value):
+                    G = ast.unparse(x.body[0].value.func)       # a guard that sends some arguments straight to the parser
+                elif isinstance(x, ast.If) and not x.orelse and len(x.body) == 1 and isinstance(x.test, ast.Compare) and len(x.test.ops) == 1 \
+                        and isinstance(x.test.ops[0], ast.NotIn) and isinstance(x.test.left, ast.Name) and x.test.left.id == p \
+                        and isinstance(x.test.comparators[0], ast.Name) and isinstance(x.body[0], ast.Assign) and len(x.body[0].targets) == 1 \
+                        and isinstance(x.body[0].targets[0], ast.Subscript) and isinstance(x.body[0].targets[0].value, ast.Name) \
+                        and x.body[0].targets[0].value.id == x.test.comparators[0].id and isinstance(x.body[0].targets[0].slice, ast.Name) \
+                        and x.body[0].targets[0].slice.id == p and is_parse(x.body[0].value):
+                    G = ast.unparse(x.body[0].value.func)
+                    M = x.test.comparators[0].id if M in (None, x.test.comparators[0].id) else False
+                else:
+                    ok = False
+            if not ok or not G or not M:
+                continue
+            inits = [s for s in body if (isinstance(s, ast.Assign) and len(s.targets) == 1 and isinstance(s.targets[0], ast.Name) and s.targets[0].id == M
+                                         or isinstance(s, ast.AnnAssign) and isinstance(s.target, ast.Name) and s.target.id == M and s.value is not None)
+                     and isinstance(s.value, ast.Dict) and not s.value.keys]
+            in_f = {id(n) for n in ast.walk(f)}
+            other_m = [n for n in ast.walk(scope) if isinstance(n, ast.Name) and n.id == M and id(n) not in in_f and not any(n is (i_.targets[0] if isinstance(i_, ast.Assign) else i_.target) for i_ in inits)]
+            uses_f = [n for n in ast.walk(scope) if isinstance(n, ast.Name) and n.id == f.name and id(n) not in in_f]
+            calls_f = [n for n in ast.walk(scope) if isinstance(n, ast.Call) and isinstance(n.func, ast.Name) and n.func.id == f.name and id(n) not in in_f]
+            if len(inits) != 1 or other_m or len(uses_f) != len(calls_f) or not calls_f:
+                continue
+            target = ast.parse(G, mode='eval').body
+            for c in calls_f:
+                c.func = ast.copy_location(_clone(target), c.func)
+            body.remove(f)
+            body.remove(inits[0])
+            done.append(f.name)
+    if done:
+        ast.fix_missing_locations(tree)
+        _link(tree)
+    return done
